@@ -2,6 +2,7 @@ package checks
 
 import (
 	"fmt"
+	"sync/atomic"
 
 	"github.com/vx-labs/mqtt-protocol/packet"
 	"github.com/vx-labs/wasp/v4/wasp/distributed"
@@ -30,6 +31,7 @@ func c09Alphabet(self, other uint64) []c09Op {
 		{"sessions.Create(S2)", func(s distributed.State) {
 			s.SessionMetadatas().Create("S2", "c2", 2, &packet.Publish{Header: &packet.Header{}, Topic: []byte("mp/w"), Payload: []byte("w")}, "mp")
 		}},
+		{"sessions.Create(S3,client id empty)", func(s distributed.State) { s.SessionMetadatas().Create("S3", "", 3, nil, "mp") }},
 		{"sessions.Delete(S1)", func(s distributed.State) { s.SessionMetadatas().Delete("S1") }},
 		sub("S1", "mp/a"), sub("S1", "mp/a/b"), sub("S2", "mp/a"),
 		{"subs.Delete(S1,mp/a)", func(s distributed.State) { s.Subscriptions().Delete("S1", []byte("mp/a")) }},
@@ -46,7 +48,7 @@ func c09Alphabet(self, other uint64) []c09Op {
 }
 
 func runC09(c *fw.Ctx) {
-	c.Rule = "(A) every sequence of <=4 (quick) / <=5 (thorough) mutator calls from a 14-call alphabet (session/subscription/retained create and delete, DeleteSession, DeletePeer(self|other) for subscriptions and sessions) on node A, after a preamble in which another peer P has replicated one session with two subscriptions to A and to follower B; (B) seeded sequences of 5-30 calls over 4+ sessions x 5 filters x 3 topics x 2 peers with bulk removals touching 0, 1 and many entries. (C) retained-message Set/Delete sequences under a clock that advances only every 2-4 calls. After EACH call the broadcasts queued by A are drained and delivered to B; B must list exactly what A lists, and a call that changed A's listing must have queued a broadcast. distinct = call sequence; non-trivial = contains a bulk removal or two calls on the same key"
+	c.Rule = "(A) every sequence of <=4 (quick) / <=5 (thorough) mutator calls from a 15-call alphabet (session/subscription/retained create and delete, DeleteSession, DeletePeer(self|other) for subscriptions and sessions) on node A, after a preamble in which another peer P has replicated one session with two subscriptions to A and to follower B; (B) seeded sequences of 5-30 calls over 4+ sessions x 5 filters x 3 topics x 2 peers with bulk removals touching 0, 1 and many entries. (C) retained-message Set/Delete sequences under a clock that advances only every 2-4 calls. (D) every sequence of <=3 calls with an audit sink that fails. After EACH call the broadcasts queued by A are drained and delivered to B; B must list exactly what A lists, and a call that changed A's listing must have queued a broadcast. distinct = call sequence; non-trivial = contains a bulk removal or two calls on the same key"
 	c.Assume("single clock domain (a monotone counter installed through hook H3): C09 is about one node's changes; clock offsets are C08's subject")
 	var tick int64
 	distributed.VerifSetClock(func() int64 { tick++; return 1000 + tick })
@@ -117,7 +119,7 @@ func runC09(c *fw.Ctx) {
 	rec(nil)
 	c.CaseBulk(seqs, seqs-len(alpha))
 	c.Exhaustive(false)
-	c.Extra("exhaustive_part", fmt.Sprintf("part A: all %d call sequences of length <=%d over the 14-call alphabet", seqs, maxL))
+	c.Extra("exhaustive_part", fmt.Sprintf("part A: all %d call sequences of length <=%d over the 15-call alphabet", seqs, maxL))
 
 	// ---- part B: seeded longer sequences -----------------------------------------
 	n := c.Pick(5000, 100000)
@@ -227,6 +229,48 @@ func runC09(c *fw.Ctx) {
 		if s < 1 {
 			c.Sample(map[string]interface{}{"part": "C", "clock_advances_every_n_calls": stall, "calls": names})
 		}
+	}
+	// ---- part D: the audit sink fails -----------------------------------------------------------
+	// (audit is a side channel: a failing sink must not separate a local change from its broadcast)
+	distributed.VerifSetClock(func() int64 { tick++; return 1000 + tick })
+	{
+		var fail atomic.Bool
+		var events atomic.Int64
+		dSeqs := 0
+		var recD func(prefix []int)
+		recD = func(prefix []int) {
+			if len(prefix) > 0 {
+				fail.Store(false)
+				a, b := kit.NewReplicaFlakyAudit(1, &fail, &events), kit.NewReplica(3)
+				names := []string{}
+				for k, oi := range prefix {
+					// the sink fails from the second call on (the first may have to succeed to create something)
+					fail.Store(k > 0 || len(prefix) == 1)
+					before := a.Canon()
+					alpha[oi].do(a.S)
+					names = append(names, alpha[oi].name+map[bool]string{true: "[audit sink failing]", false: ""}[fail.Load()])
+					bs := a.Drain()
+					for _, bc := range bs {
+						b.Deliver(bc)
+					}
+					c.Observe("broadcasts_delivered", len(bs))
+					if !check("D(failing audit sink)", names, a, b, before, len(bs)) {
+						break
+					}
+				}
+				dSeqs++
+			}
+			if len(prefix) == 3 {
+				return
+			}
+			for i := range alpha {
+				recD(append(append([]int{}, prefix...), i))
+			}
+		}
+		recD(nil)
+		c.CaseBulk(dSeqs, dSeqs)
+		c.Observe("audit_events_offered_to_failing_sink", int(events.Load()))
+		c.Floor("audit_events_offered_to_failing_sink", 100)
 	}
 	// concurrent local writes on one retained topic (three goroutines): what the node keeps must be what
 	// its broadcasts give a follower
